@@ -1,22 +1,12 @@
-//! D36 (C17): the process never exits although every client has left *and* shutdown_timeout has passed.
+//! D74 (C17): while a SIGHUP reload is building pools, pgcat hears no signal and accepts nobody.
 //!
-//! src/main.rs: the accept loop is the only receiver of the exit channel (capacity 1) and, in its drain
-//! arm, also *awaits* `exit_tx.send(())` when the client count reaches 0. If the shutdown_timeout timer
-//! has already put its `()` into the channel and `tokio::select!` happens to take the drain arm first
-//! (both arms are ready; select! starts at a random branch), the loop waits for room in a channel that
-//! only the loop itself can drain: it never polls `exit_rx` again, and the process stays up for ever.
-//! The same holds for `drain_tx.send(0).await` in the SIGINT arm (capacity 2048).
+//! The SIGHUP arm of the accept loop awaits `reload_config(..)` inline. A reload that has to connect (a new or changed
+//! pool with `min_pool_size >= 1` and `validate_config = true`) takes as long as the slowest server's startup - up to
+//! connect_timeout per server. For that long the loop polls nothing: SIGTERM, which is to end the process at once, is
+//! not heard; neither is SIGINT; no client is accepted.
 //!
-//! The schedule is made likely here by keeping the loop busy for a moment (a SIGHUP reload whose new
-//! pool has `min_pool_size = 1` and `validate_config = true`, against a backend that answers the startup
-//! slowly) while the timer fires and the last client leaves; when the loop resumes, both the exit and
-//! the drain arm are ready and select! takes the drain arm with probability 1/6. The test runs the real
-//! `pgcat` binary ATTEMPTS times (in parallel) and requires every one of them to exit.
-//!
-//!   cargo test --offline --test d36_c17_exit_channel_self_send -- --nocapture
-//! Expected before the repair: FAILS (some of the processes hang). After: passes.
-//! Note: the schedule relied on a SIGHUP reload running inside the accept loop; since D74 (reload in its own task) the loop
-//! is not kept busy any more and the demonstration passes trivially - the rule C17-R5 is what guards the repair.
+//! The real `pgcat` binary against a fake backend that answers the startup packet after 2.5 s once told to stall.
+//!   cargo test --offline --test d74_c17_reload_blocks_the_accept_loop -- --nocapture
 
 use std::io::Write as _;
 use std::process::{Command, Stdio};
@@ -28,8 +18,6 @@ use bytes::{BufMut, BytesMut};
 use tokio::io::{AsyncReadExt, AsyncWriteExt};
 use tokio::net::{TcpListener, TcpStream};
 use tokio::time::{sleep, timeout};
-
-const ATTEMPTS: usize = 48;
 
 fn backend_msg(code: u8, body: &[u8]) -> BytesMut {
     let mut m = BytesMut::new();
@@ -218,15 +206,15 @@ fn signal(pid: u32, sig: &str) {
     let _ = Command::new("kill").arg(sig).arg(pid.to_string()).status();
 }
 
-/// One graceful shutdown of a real pgcat process; true if the process exited.
-async fn attempt(n: usize) -> bool {
+#[tokio::test(flavor = "multi_thread", worker_threads = 4)]
+async fn sigterm_is_heard_while_a_reload_is_building_pools() {
     let stall = Arc::new(AtomicBool::new(false));
     let backend_port = fake_backend(stall.clone()).await;
     let pgcat_port = {
         let l = std::net::TcpListener::bind("127.0.0.1:0").unwrap();
         l.local_addr().unwrap().port()
     };
-    let path = std::env::temp_dir().join(format!("d36_pgcat_{}_{}.toml", std::process::id(), n));
+    let path = std::env::temp_dir().join(format!("d74_pgcat_{}.toml", std::process::id()));
     std::fs::write(&path, config(pgcat_port, backend_port, false)).unwrap();
 
     let mut child = Command::new(env!("CARGO_BIN_EXE_pgcat"))
@@ -238,73 +226,40 @@ async fn attempt(n: usize) -> bool {
         .expect("pgcat binary");
     let pid = child.id();
 
-    // one client inside a transaction when SIGINT arrives
+    // pgcat is up and serves
     let mut a = connect(pgcat_port).await;
-    assert_eq!(query(&mut a, "BEGIN").await.last(), Some(&'Z'));
+    assert_eq!(query(&mut a, "SELECT 1").await.last(), Some(&'Z'));
 
-    signal(pid, "-INT"); // graceful shutdown starts; the 1.2 s timer is armed
-    sleep(Duration::from_millis(200)).await;
-
-    // keep the accept loop busy for ~2.5 s: reload with a new pool that must connect before from_config returns
+    // a reload that has to connect to a server that is slow to accept logins (2.5 s)
     stall.store(true, Ordering::SeqCst);
     let mut f = std::fs::File::create(&path).unwrap();
     f.write_all(config(pgcat_port, backend_port, true).as_bytes()).unwrap();
     drop(f);
     signal(pid, "-HUP");
+    sleep(Duration::from_millis(300)).await;
 
-    // meanwhile the timer fires (t = 1.2 s) and the last client finishes and is disconnected (t ~ 1.8 s)
-    sleep(Duration::from_millis(1600)).await;
-    // (since the D74 repair the reload no longer keeps the accept loop busy: the timer's exit is taken at once and the
-    // process may already be gone here - which is a pass for this demonstration, whose point is that it always exits)
-    {
-        let mut m = BytesMut::new();
-        m.put_u8(b'Q');
-        m.put_i32(4 + 6 + 1);
-        m.put_slice(b"COMMIT");
-        m.put_u8(0);
-        if a.write_all(&m).await.is_ok() {
-            let _ = timeout(Duration::from_secs(5), until_ready(&mut a)).await;
-        }
-    }
-    let mut rest = Vec::new();
-    let _ = timeout(Duration::from_secs(2), a.read_to_end(&mut rest)).await;
-    drop(a);
-
-    // every client has left and shutdown_timeout has passed: the process must exit
-    let deadline = Instant::now() + Duration::from_secs(8);
-    let exited = loop {
+    // the operator (or the service manager) ends the process
+    let asked = Instant::now();
+    signal(pid, "-TERM");
+    let deadline = asked + Duration::from_secs(8);
+    let exited_after = loop {
         if let Ok(Some(_)) = child.try_wait() {
-            break true;
+            break Some(asked.elapsed());
         }
         if Instant::now() > deadline {
-            break false;
+            break None;
         }
-        sleep(Duration::from_millis(100)).await;
+        sleep(Duration::from_millis(20)).await;
     };
-    if !exited {
+    if exited_after.is_none() {
         let _ = child.kill();
         let _ = child.wait();
     }
     let _ = std::fs::remove_file(&path);
-    exited
-}
-
-#[tokio::test(flavor = "multi_thread", worker_threads = 8)]
-async fn graceful_shutdown_always_ends_the_process() {
-    let mut hung = 0;
-    let mut done = 0;
-    for chunk in 0..(ATTEMPTS / 8) {
-        let mut hs = Vec::new();
-        for i in 0..8 {
-            hs.push(tokio::spawn(attempt(chunk * 8 + i)));
-        }
-        for h in hs {
-            done += 1;
-            if !h.await.unwrap() {
-                hung += 1;
-            }
-        }
-    }
-    println!("{} of {} pgcat processes were still running 8 s after the last client left and shutdown_timeout (1.2 s) had passed", hung, done);
-    assert_eq!(hung, 0, "{} of {} graceful shutdowns never ended the process", hung, done);
+    println!("SIGTERM -> exit: {:?}", exited_after);
+    assert!(
+        matches!(exited_after, Some(d) if d < Duration::from_millis(1000)),
+        "C17: SIGTERM is to end the process at once; sent 0.3 s into a reload that was connecting to a slow server it took {:?} (the reload's 2.5 s) - the accept loop was inside reload_config and heard nothing",
+        exited_after
+    );
 }
